@@ -180,6 +180,22 @@ theorem no_idle_slot_at_advance_static (body : σ → Resume → Burst ℚ σ) (
     (r : ResId) (e : EvId) (he : (s.res r).putQ.head? = some e) : canPut (prePut s r e) r e = false :=
   no_idle_slot_at_advance body fuel s0 s h0 (dreach_of_noTrig body hb fuel s0 s hr) ha r e he
 
+/-- **The invariant `SInv` holds in every state every program can reach** (inside the domain); in particular its
+structural part `Pkg s none`, which is what the scan post-conditions need. -/
+theorem strand_invariant_reachable (body : σ → Resume → Burst ℚ σ) (fuel : Nat) (s0 s : KState ℚ σ)
+    (h0 : SInv s0) (hr : DReach body fuel s0 s) : SInv s ∧ Pkg s none :=
+  ⟨reach_sinv body fuel s0 s h0 hr, (reach_sinv body fuel s0 s h0 hr).j.pkg⟩
+
+/-- **`run(until=number)` and `run(until=event)` enter their step loop in a state satisfying the invariant** whenever
+they are called in one (the sentinel event / the `StopSimulation` callback do not disturb it), so the theorems cover
+every split plan of `run` / `step` calls. -/
+theorem strand_invariant_at_run_start (s : KState ℚ σ) (h : SInv s) :
+    (∀ at_ : ℚ, s.now < at_ →
+      SInv ((((s.newEv { kind := .sentinel, cbs := some [], out := some (.ok .none) }).1.scheduleAt s.events.size URGENT
+        at_)).addCb s.events.size .stop)) ∧
+    (∀ e, SInv (s.addCb e .stop)) :=
+  ⟨fun at_ h1 => sinv_untilTime_start h at_ h1, fun e => sinv_untilEvent_start h e⟩
+
 /-- **The invariant holds initially**: in a fresh environment (nothing scheduled, resources idle), and it survives the
 API calls that set a run up (`env.process(...)`, `resource.request()` …), so `SInv s0` is satisfiable by every
 start state the harness uses. -/
